@@ -32,7 +32,11 @@ CLAIMS = {
  'C05': bounded('Run-time contracts for identity / one-sided adoption / agreement (notebooks x strategy tables, generic JSON) and role-swap symmetry (side-naming strategies swapped with the roles; same-position double inserts excluded).', 'DESIGN.md 5/C05'),
  'C06': bounded('By-construction expectation: per-cell ownership, actions and non-adjacent insertions; expected notebook built without nbdime; also generic JSON dict/list cases.', 'DESIGN.md 5/C06'),
  'C07': bounded('Line-set survival/provenance contracts and the same-line-rewrite flagging contract under the default strategy for each text-merge helper.', 'DESIGN.md 5/C07'),
- 'C09': bounded('Ordering (prefix_before), merge/diff schema validation, JSON round trip, apply_decisions==merged, and choose-local / choose-remote reproduction under the web tool strategy.', 'DESIGN.md 5/C09'),
+ 'C09': dict(category='other', design_ref='DESIGN.md 5/C09, A4', note='The structural part is syntactic (recognised code shapes only; an unrecognised shape makes no statement) and rests on the stated semantics of Python list/tuple comparison and sorted(); everything else is bounded.',
+   technique='structural obligations on the sort key and the sorting call (discharged on the current source) + bounded run-time contracts for ordering, schema, JSON and losslessness',
+   text='Mixed: the ordering clause is reduced to obligations on the real code -- validated() returns sorted(self.decisions, key=_sort_key, reverse=True); _sort_key is an elementwise map of common_path '
+        '(one append per path element, built from that element alone, tuples led by a string, list indices keyed by (\'\', -index)) -- from which deeper paths and higher indices sort first by the meaning of list comparison. '
+        'Ordering (prefix_before), merge/diff schema validation, JSON round trip, apply_decisions==merged, and choose-local / choose-remote reproduction under the web tool strategy are BOUNDED.'),
  'C10': bounded('Frame obligations (no shared mutable default / module state behind the strategy tables, discharged syntactically on the current sources) + use-x strategies (uniform and mixed merge/input/output, transients on/off) against the open merge with every conflicted decision re-labelled to the side its path selects; no-fabricated-line clause.', 'DESIGN.md 5/C10'),
  'C11': dict(category='other', design_ref='DESIGN.md 5/C11', note=TRUST, technique=TECH_MIX,
    text='Mixed: wf_seq / wf_map are discharged postconditions of every list / dict differ under contract, and deep well-formedness wf_v(a, diff(a, b)) (every nested '
